@@ -20,7 +20,13 @@ TIE = {EXIT: 0, HAND: 1, ENTER: 2, PULL: 3}
 
 
 def gen_case(rng, idx):
-    mode = ['thread', 'process', 'async'][idx % 3] if idx < 9 else rng.choice(['thread', 'thread', 'process', 'async', 'async'])
+    if idx < 6:
+        # whatever the seed: every executor kind with busy workers (calls overlap) and with a slow consumer (the window fills)
+        mode = ['thread', 'process', 'async'][idx % 3]
+        if idx < 3:
+            return {'mode': mode, 'conc': 2, 'endless': True, 'n': 0, 'stop_after': 30, 'dur_ms': 20, 'src_ms': 0, 'cons_ms': 0, 'burst': False}
+        return {'mode': mode, 'conc': 3, 'endless': False, 'n': 40, 'stop_after': None, 'dur_ms': 8, 'src_ms': 0, 'cons_ms': 15, 'burst': False}
+    mode = rng.choice(['thread', 'thread', 'process', 'async', 'async'])
     conc = rng.choice([1, 2, 2, 3, 4])
     endless = rng.random() < 0.4
     n = rng.choice([12, 25, 40])
@@ -134,6 +140,178 @@ def part(n_quick, n_thorough):
                      shard=100)
 
 
+# ---------------------------------------------------------------------------------------------
+# order mode: what the consumer receives and how the iteration ends (C01, C05)
+# ---------------------------------------------------------------------------------------------
+
+PRE_OFFSET = 100
+RUN_LIMIT = 60.0
+
+
+def core_order_cases():
+    """every executor kind meets every feature at least once, whatever the seed"""
+    out = []
+    base = {'has_pre': False, 'pre_fail': {}, 'call_fail': {}, 'return_x': False, 'return_exc': False, 'stop_after': None,
+            'scale': 2, 'cons_ms': 0}
+    for mode in ('thread', 'process', 'async'):
+        d12 = [['d', i] for i in range(12)]
+        for extra in (
+            {'conc': 2, 'src': d12, 'call_fail': {3: 21, 7: 22}, 'return_exc': True},
+            {'conc': 2, 'src': d12, 'call_fail': {3: 21, 7: 22}},
+            {'conc': 3, 'src': d12, 'has_pre': True, 'pre_fail': {2: 11}, 'call_fail': {5: 20}, 'return_exc': True, 'return_x': True},
+            {'conc': 3, 'src': d12[:6] + [['e', 2]]},
+            {'conc': 4, 'src': [['d', i] for i in range(30)], 'stop_after': 5, 'scale': 3, 'return_x': True},
+        ):
+            c = dict(base, mode=mode, **extra)
+            c['cap'] = 2 * c['conc']
+            out.append(c)
+    return out
+
+
+def gen_order_case(rng, idx):
+    core = core_order_cases()
+    if idx < len(core):
+        return core[idx]
+    mode = rng.choice(['thread', 'process', 'async', 'async'])
+    conc = rng.choice([1, 2, 2, 3, 4])
+    n = rng.choice([0, 1, 2, 5, 9, 14, 20, 30])
+    table = [['d', i] for i in range(n)]
+    if rng.random() < 0.2:
+        table.insert(rng.randrange(0, n + 1), ['e', rng.randrange(1, 4)])
+        table = table[:[k for k, _ in table].index('e') + 1]
+    has_pre = rng.random() < 0.4
+    pre_fail, call_fail = {}, {}
+    density = rng.choice([0, 0.03, 0.03, 0.12])
+    for i in range(n):
+        if has_pre and rng.random() < density:
+            pre_fail[i] = rng.randrange(10, 14)
+        elif rng.random() < density:
+            call_fail[i] = rng.randrange(20, 24)
+    return {'mode': mode, 'conc': conc, 'cap': 2 * conc, 'src': table, 'has_pre': has_pre, 'pre_fail': pre_fail, 'call_fail': call_fail,
+            'return_x': rng.random() < 0.4, 'return_exc': rng.random() < 0.5,
+            'stop_after': rng.choice([None, None, None, 1, 2, 3, 5, 8]), 'scale': rng.choice([0, 1, 3]),
+            'cons_ms': rng.choice([0, 0, 2, 6])}
+
+
+def run_order_case(c):
+    from mpservice.streamer import Stream
+    from harness import parreal_workers as W
+    from harness.events import v_exc
+    pf = {int(k): v for k, v in c['pre_fail'].items()}
+    cf = {int(k): v for k, v in c['call_fail'].items()}
+    off = PRE_OFFSET if c['has_pre'] else 0
+
+    def source():
+        for kind, v in c['src']:
+            if kind == 'd':
+                yield v
+            else:
+                raise W.SrcErr(v)
+
+    def pre(x):
+        if x in pf:
+            raise W.PreErr(pf[x])
+        return x + PRE_OFFSET
+
+    kw = {'fail': cf, 'off': off, 'scale': c['scale'], 'return_x': c['return_x'], 'return_exceptions': c['return_exc']}
+    if c['has_pre']:
+        kw['preprocessor'] = pre
+    if c['mode'] == 'async':
+        s = Stream(source()).parmap(W.af, concurrency=c['conc'], **kw)
+    else:
+        s = Stream(source()).parmap(W.f, executor=c['mode'], concurrency=c['conc'], **kw)
+
+    def code(y):
+        if isinstance(y, BaseException):
+            return v_exc(y.code) if hasattr(y, 'code') and isinstance(y.code, int) else -999999
+        return y
+
+    res = {}
+
+    def body():
+        out = []
+        outcome = None
+        it = iter(s)
+        try:
+            try:
+                for y in it:
+                    if c['return_x']:
+                        x, v = y
+                        out.append(x * 1000000 + code(v) + 500000)
+                    else:
+                        out.append(code(y))
+                    if c['stop_after'] is not None and len(out) >= c['stop_after']:
+                        outcome = ['broke']
+                        break
+                    if c['cons_ms']:
+                        time.sleep(c['cons_ms'] / 1000)
+                else:
+                    outcome = ['completed']
+            except Exception as e:  # noqa
+                outcome = ['raised', e.code] if isinstance(getattr(e, 'code', None), int) else ['other', repr(e)[:200]]
+        finally:
+            close = getattr(it, 'close', None)
+            if close:
+                close()
+        res['received'], res['outcome'] = out, outcome
+
+    th = threading.Thread(target=body, daemon=True)
+    t0 = time.monotonic()
+    th.start()
+    th.join(RUN_LIMIT)
+    if th.is_alive():
+        return {'hung': True, 'received': None, 'outcome': None, 'elapsed': RUN_LIMIT}
+    res['elapsed'] = round(time.monotonic() - t0, 3)
+    return res
+
+
+def order_oracle(r):
+    from harness.props.c01 import expected
+    c, o = r['cfg'], r['obs']
+    if o.get('crash'):
+        return ('harness/implementation crashed: ' + o['crash'], None)
+    if o.get('hung'):
+        return (f"parmap executor={c['mode']}: the iteration (including closing the iterator) had not ended after {RUN_LIMIT:.0f} s", None)
+    exp, fin = expected(c)
+    got, oc = o['received'], o['outcome']
+    tag = f"parmap executor={c['mode']} concurrency={c['conc']}"
+    if oc[0] == 'other':
+        return (f'{tag}: the iteration raised {oc[1]}', None)
+    sa = c['stop_after']
+    if sa is not None and len(exp) >= sa:
+        exp, fin = exp[:sa], ['broke']
+    if got != exp:
+        return (f'{tag}: outputs are not the in-order results of the inputs: received {got}, expected {exp}', None)
+    if oc != fin:
+        return (f'{tag}: the iteration ended with {oc} after {len(got)} outputs, expected {fin}', None)
+    return None
+
+
+def coq_order_case(r):
+    from harness.core import cbool, clist, cnat, copt, cz
+    from harness.scen_stream import coq_src, outcome_code
+    c, o = r['cfg'], r['obs']
+    if o.get('crash') or o.get('hung') or o['outcome'][0] == 'other':
+        return '(1%nat, [], false, [], [], (false, false), None, [7%Z], 0%Z)'      # judged by the oracle
+    pf = clist(sorted((int(k), v) for k, v in c['pre_fail'].items()), lambda kv: f'({cz(kv[0])}, {cz(kv[1])})')
+    cf = clist(sorted((int(k), v) for k, v in c['call_fail'].items()), lambda kv: f'({cz(kv[0])}, {cz(kv[1])})')
+    return (f"({cnat(c['conc'])}, {coq_src(c['src'])}, {cbool(c['has_pre'])}, {pf}, {cf}, ({cbool(c['return_x'])}, {cbool(c['return_exc'])}), "
+            f"{copt(c['stop_after'], cnat)}, {clist(o['received'], cz)}, {cz(outcome_code(o['outcome']))})")
+
+
+def order_part(n_quick, n_thorough):
+    from harness import core
+    return core.Part('real', 'harness.scen_parreal', 'order', n_quick, n_thorough, 'DriverFifoReal', coq_order_case, order_oracle,
+                     lambda r: bool(r['obs'].get('received')) and len(r['obs']['received']) >= 2 and r['cfg']['conc'] >= 2,
+                     key=lambda r: json.dumps(r['cfg'], sort_keys=True),
+                     describe=lambda r: {'cfg': r['cfg'], 'obs': r['obs']}, shard=150)
+
+
+ORDER_TRUSTED = ('real-run part: Stream.parmap with executor=thread / process and with an async worker function runs unscheduled (random '
+                 'per-element durations scramble the completion order); what the consumer received and how the iteration ended is compared '
+                 'with the result of coq/Model/FifoStream.v under a fair schedule (the theorems make that result schedule-independent)')
+
+
 PAR_TRUSTED = ('real-run part: Stream.parmap with executor=thread / process and with an async worker function runs unscheduled; pulls, '
                'hand-overs and worker entries/exits are stamped with CLOCK_MONOTONIC (shared by all processes of the machine), merged, '
                'and replayed in coq/Model/ParSpec.v (capacity = 2*concurrency); the stamps lie inside the intervals they stand for, so '
@@ -145,7 +323,8 @@ def main(argv):
     rest = argv[4:]
     corpus = json.load(open(rest[0])) if rest else []
     rng = random.Random(seed)
-    cases = [c['cfg'] for c in corpus] + [gen_case(rng, i) for i in range(n)]
+    gen, runner, orc = (gen_case, run_case, oracle) if what == 'gen' else (gen_order_case, run_order_case, lambda c, o: None)
+    cases = [c['cfg'] for c in corpus] + [gen(rng, i) for i in range(n)]
     import gc
     gc.disable()      # see harness/props/c14.py (CPython 3.12.1 thread-start / finalizer deadlock)
     results = [None] * len(cases)
@@ -161,10 +340,10 @@ def main(argv):
                 return
             c = cases[i]
             try:
-                o = run_case(c)
+                o = runner(c)
             except BaseException as e:  # noqa
                 o = {'crash': repr(e)[:300]}
-            results[i] = {'cfg': c, 'obs': o, 'oracle': oracle(c, o), 'strategy': c['mode'], 'verdict': 'ok'}
+            results[i] = {'cfg': c, 'obs': o, 'oracle': orc(c, o), 'strategy': c['mode'], 'verdict': 'ok'}
 
     ths = [threading.Thread(target=worker, daemon=True) for _ in range(4)]
     for t in ths:
